@@ -375,6 +375,7 @@ def run(repo: Repo, ctx) -> None:
     _r6(repo, ctx)
     _r7(repo, ctx)
     _r8(repo, ctx)
+    _r9(repo, ctx)
 
 
 def _r6(repo: Repo, ctx) -> None:
@@ -673,6 +674,47 @@ def _r8(repo: Repo, ctx) -> None:
            f'path to the same type in the query reads the raw table',
            init.loc, sample='NEWREL: set(prevlevel.pending_type_rewrite_'
                             'ctes)')
+
+
+def _r9(repo: Repo, ctx) -> None:
+    from ..absint import Facts, open_returns
+    ctx.floor('C07.R9', 2)
+    # (a) the policies of a type are withheld only by the two options
+    gp = repo.func(f'{QLC}.policies.get_access_policies')
+    ctx.saw(gp)
+    g = CFG(gp.node)
+    F = Facts({'ctx.env.options.apply_query_rewrites': True,
+               'ctx.env.options.apply_user_access_policies': True}, gp.node)
+    rets = [norm(r.value) for r in open_returns(g, F) if r.value is not None]
+    ok = bool(rets) and bool(F.used) and all(r != '()' for r in rets) and \
+        all('get_access_policies(' in r for r in rets)
+    ctx.ob('C07.R9', 'get_access_policies:withheld-only-by-options', ok,
+           f'with both access-policy options enabled get_access_policies '
+           f'can still answer {sorted(set(rets))}: a type whose policies '
+           f'are hidden from the compiler (e.g. abstract types) gets no '
+           f'rewrite, so its descendants are read unfiltered through it',
+           gp.loc, sample=sorted(set(rets)))
+    # (b) whether rewrites are ignored for this set is decided before a
+    #     rewrite is registered for its type
+    ns = repo.func(f'{QLC}.setgen.new_set')
+    ctx.saw(ns)
+    g = CFG(ns.node)
+    dec = [t.id for t in g.nodes if t.kind == 'test'
+           and 'suppress_rewrites' in norm(t.ast)]
+    reg = [n.id for n in g.nodes if any(
+        (call_name(c) or '').endswith('try_type_rewrite')
+        for c in g.node_calls(n))]
+    if not dec or not reg:
+        raise AnalysisError('C07.R9: rewrite decision / registration of '
+                            'new_set not found')
+    ok = all(g.always_before(r, dec) for r in reg)
+    ctx.ob('C07.R9', 'new_set:ignore-decided-before-registration', ok,
+           'new_set registers the type rewrite before deciding whether '
+           'rewrites are suppressed for this set: a type first mentioned '
+           'inside another type\'s policy body gets its rewrite compiled '
+           'in the policy\'s context (rewrites ignored) and that rewrite '
+           'is reused by the query proper', ns.loc,
+           sample='suppress_rewrites test dominates try_type_rewrite')
 
 
 def _callers(repo: Repo, pkg: str, name: str):
